@@ -371,7 +371,7 @@ theorem deVecCase_mono (env : Env) (vis : Visitor) (fuel : Nat) (dAny : Ty → T
           split
           · exact SimS.err _ _
           · exact SimS.map _ (iterV_mono _ (fun x y h5 => rd_mono _ x y h5) _ c d h3)
-      · simp only []
+      · try simp only []
         split
         · split
           · exact SimS.err _ _
